@@ -70,13 +70,16 @@ func (kv *KeyValue) Flush() error {
 	if err := it.Close(); err != nil {
 		return err
 	}
+	// Always commit, even when there was nothing to flush: BeginBatch may
+	// have opened a transaction on the backing store (sqlkv keeps its
+	// connection gate until the batch is committed).
+	if err := kv.back.CommitBatch(bmback); err != nil {
+		return err
+	}
+	if err := kv.buf.CommitBatch(bmbuf); err != nil {
+		return err
+	}
 	if commit {
-		if err := kv.back.CommitBatch(bmback); err != nil {
-			return err
-		}
-		if err := kv.buf.CommitBatch(bmbuf); err != nil {
-			return err
-		}
 		kv.bufMu.Lock()
 		kv.buffered = 0
 		kv.bufMu.Unlock()
